@@ -38,7 +38,7 @@ out += ["The builders' own mutation tables (another ~150 mutants, all but a few 
 "Changes written by fresh sub-agents that were given only the text of one property and a",
 "scratch worktree of the repository (nothing from /verif): two per property in each round",
 "(round 1: -A/-B; round 2: -C/-D, the agents also got one-line descriptions of the earlier",
-"changes and were asked for different mechanisms; round 3: -E/-F, round 4: -G/-H, round 5: -I/-J, round 6: -K/-L, round 7: -M/-N, round 8: -O/-P, round 9: -Q/-R and round 10: -S/-T, likewise; round 11: one per property, -U).",
+"changes and were asked for different mechanisms; round 3: -E/-F, round 4: -G/-H, round 5: -I/-J, round 6: -K/-L, round 7: -M/-N, round 8: -O/-P, round 9: -Q/-R and round 10: -S/-T, likewise; round 11: one per property, -U; round 12: eight properties, -V).",
 "Each was re-verified by tools/seedstore.py against /repo's HEAD: the demonstration passes",
 "on the clean tree; with the patch the library builds, its own tests pass and the",
 "demonstration fails; then the property's quick check was run against the patched files.",
